@@ -58,7 +58,7 @@ impl Object for Encoding {
                 }
                 Ok(Encoding { base, differences })
             }
-            Primitive::Reference(r) => Self::from_primitive(resolve.resolve(r)?, resolve),
+            Primitive::Reference(r) => Self::from_primitive(pdf::object::resolve_chain(r, resolve)?, resolve),
             Primitive::Stream(s) => Self::from_primitive(Primitive::Dictionary(s.info), resolve),
             _ => bail!("Unknown element: {:?}", p),
         }
